@@ -87,13 +87,15 @@ func (w *vrWorld) c03ReusedUpdater() {
 		w.act(u, vrApp(w.roots[i]))
 	}
 	w.commit1(u, -1)
+	w.close1(u)
+	u = w.open1(id)
 	w.act(u, vrTrim(2))
 	w.commit1(u, -1)
-	w.act(u, vrApp(w.roots[3]))
+	w.act(u, vrApp(w.roots[3])) // unpatched: lands at root_index 3, leaving a gap
 	w.commit1(u, -1)
 	w.close1(u)
 	u = w.open1(id)
-	w.act(u, vrApp(w.roots[4]))
+	w.act(u, vrApp(w.roots[4])) // unpatched: lands in the gap, the persisted order differs from the served one
 	w.commit1(u, -1)
 	// same updater: update, commit, swap, commit, update again
 	w.act(u, vrUpdate(w.roots[5], 0))
